@@ -34,18 +34,18 @@ def sameOps (relFree : Bool) : List Opnd → List Opnd → Bool
 /-- the written instruction `it` and the decoded `got` (one instruction covering all emitted bytes) -/
 def sameInstr (it : Item) (got : Dec) : Bool :=
   let w := it.want
-  let kwApplies := it.relKw != 0 && !(["call", "xbegin", "jrcxz"].contains w.mn)
+  let kwApplies := it.relKw != 0 && !([(mn! "call"), (mn! "xbegin"), (mn! "jrcxz")].contains w.mn)
   let wops := if kwApplies then w.ops.map (fun o => match o with
       | .rel _ d => .rel (if it.relKw == 1 then 8 else 32) d
       | o => o) else w.ops
   (w.mn == got.mn && sameOps (!kwApplies) wops got.ops) ||
   -- xchg is symmetric
-  (w.mn == "xchg" && got.mn == "xchg" && sameOps true w.ops got.ops.reverse) ||
+  (w.mn == (mn! "xchg") && got.mn == (mn! "xchg") && sameOps true w.ops got.ops.reverse) ||
   -- xchg ax, ax / xchg rax, rax change nothing (xchg eax, eax does)
-  (w.mn == "xchg" && got.mn == "nop" && got.ops.isEmpty &&
+  (w.mn == (mn! "xchg") && got.mn == (mn! "nop") && got.ops.isEmpty &&
     (w.ops == [.reg ⟨.gpr16, 0⟩, .reg ⟨.gpr16, 0⟩] || w.ops == [.reg ⟨.gpr64, 0⟩, .reg ⟨.gpr64, 0⟩])) ||
   -- mov r64, imm ≤ 0xffffffff written to the 32-bit register
-  (w.mn == "mov" && got.mn == "mov" &&
+  (w.mn == (mn! "mov") && got.mn == (mn! "mov") &&
     match w.ops, got.ops with
     | [.reg ⟨.gpr64, n⟩, .imm 64 v], [.reg ⟨.gpr32, n'⟩, .imm 32 v'] => n == n' && v == v' && v < 2 ^ 32
     | _, _ => false)
@@ -66,7 +66,7 @@ def toStr (s : String) : List Nat := s.toList.map Char.toNat
 
 /-- is (mnemonic as written, operand kinds) in the frozen list of supported forms? -/
 def supportedForm (it : Item) : Bool :=
-  match AL.Spec.supported.find? (fun p => p.1 == toStr it.wmn) with
+  match AL.Spec.supported.find? (fun p => p.1 == it.wmn) with
   | some p => p.2.contains (it.want.ops.map kindOf)
   | none => false
 
@@ -76,13 +76,13 @@ def mustReject (it : Item) : Bool :=
   match it.want.ops with
   | [.rel _ d] =>
     let out := d < -128 || d > 127
-    (it.relKw == 1 && out && it.want.mn != "call" && it.want.mn != "xbegin") || (it.want.mn == "jrcxz" && out)
+    (it.relKw == 1 && out && it.want.mn != (mn! "call") && it.want.mn != (mn! "xbegin")) || (it.want.mn == (mn! "jrcxz") && out)
   | _ => false
 
 /-- `short` on call / xbegin (they have no rel8 form): accepting with rel32 or rejecting are both fine -/
 def mayReject (it : Item) : Bool :=
   match it.want.ops with
-  | [.rel _ _] => it.relKw == 1 && (it.want.mn == "call" || it.want.mn == "xbegin")
+  | [.rel _ _] => it.relKw == 1 && (it.want.mn == (mn! "call") || it.want.mn == (mn! "xbegin"))
   | _ => false
 
 end AL.Spec.X86
